@@ -68,6 +68,8 @@ type run struct {
 	done   bool
 	verbose bool
 	stopWatch chan struct{}
+	post      func() // post-run checks executed outside the bubble (real time allowed)
+	inconclusive string
 }
 
 var R *run
@@ -198,9 +200,6 @@ func main() {
 		R.finish("violation", "panic")
 	}
 	mode := uint32(1)
-	if c.Sched.Mode == "canonical" {
-		mode = 0
-	}
 	simSeed(true, mode, c.Sched.Seed)
 	if c.Sched.Mode == "yield" && c.Sched.YieldN > 0 {
 		simSetYield(uint32(c.Sched.YieldN))
@@ -227,6 +226,9 @@ func main() {
 		switch {
 		case strings.Contains(msg, "main bubble goroutine has exited"):
 			R.res.Leaks = blockedSaramaFrames(dump)
+			if R.post != nil {
+				R.post()
+			}
 			R.finish("leak", msg)
 		case strings.Contains(msg, "all goroutines in bubble are blocked"):
 			R.res.Dump = trimDump(dump)
@@ -236,6 +238,12 @@ func main() {
 			R.violate(propRule("panic"), "panic: %v", msg)
 			R.finish("violation", msg)
 		}
+	}
+	if R.post != nil {
+		R.post()
+	}
+	if R.inconclusive != "" && len(R.viol) == 0 {
+		R.finish("inconclusive", R.inconclusive)
 	}
 	R.finish("ok", "")
 }
